@@ -11,6 +11,57 @@ from contracts import rules as R
 from pyvc.verify import verify, summarize
 
 
+def bounded_hierarchy(ctx):
+    """rules declared on a task class that extends another task class, with every order in which
+    tasks of the base and of the derived class are rule-checked (class-level state must not leak)"""
+    import itertools
+    from pydra.compose import python
+
+    def base_fn(a: int, flag: bool = False) -> int:
+        return a
+
+    def derived_fn(a: int, flag: bool = False, opt: str | None = None, dep: str | None = None, alt: str | None = None) -> int:
+        return a
+
+    dom = ctx.domain(
+        "class-hierarchy",
+        bound="Base(a, flag) and 3 derived classes adding opt/dep/alt with (requires dep | requires dep in ('x','y') | xor(opt, alt)); every order of first rule-checks of a Base task and a Derived task x 9 value assignments of the derived fields",
+        rule="fresh classes per history; non-trivial: the derived assignment violates a rule declared on the derived class only",
+        exhaustive=True,
+    )
+    variants = {
+        "requires": lambda: dict(inputs={"opt": python.arg(type=str | None, default=None, requires=["dep"]), "dep": python.arg(type=str | None, default=None), "alt": python.arg(type=str | None, default=None)}),
+        "requires-allowed": lambda: dict(inputs={"opt": python.arg(type=str | None, default=None, requires=[[("dep", ["x", "y"])]]), "dep": python.arg(type=str | None, default=None), "alt": python.arg(type=str | None, default=None)}),
+        "xor": lambda: dict(inputs={"opt": python.arg(type=str | None, default=None), "dep": python.arg(type=str | None, default=None), "alt": python.arg(type=str | None, default=None)}, xor=["opt", "alt"]),
+    }
+    values = [None, "x", "z"]
+    for vname, kw in variants.items():
+        for base_first in (True, False):
+            for opt, dep, alt in itertools.product(values, repeat=3):
+                Base = python.define(base_fn, name="Base")
+                Derived = python.define(derived_fn, name="Derived", bases=[Base], **kw())
+                if vname == "requires":
+                    bad = opt is not None and dep is None
+                elif vname == "requires-allowed":
+                    bad = opt is not None and dep not in ("x", "y")
+                else:
+                    bad = (opt is not None and alt is not None) or (opt is None and alt is None)
+                t = Derived(a=1, opt=opt, dep=dep, alt=alt)
+                if base_first:
+                    Base(a=1)._rule_violations()
+                    got = t._rule_violations()
+                else:
+                    got = t._rule_violations()
+                    Base(a=1)._rule_violations()
+                    got2 = t._rule_violations()
+                    if bool(got2) != bool(got):
+                        got = got2 if bool(got2) != bad else got
+                case = {"variant": vname, "base_checked_first": base_first, "opt": opt, "dep": dep, "alt": alt, "violations": got}
+                dom.case((vname, base_first, opt, dep, alt), nontrivial=bad, sample=case)
+                if bool(got) != bad:
+                    ctx.fail(None, f"derived task {vname} opt={opt!r} dep={dep!r} alt={alt!r} (base checked first: {base_first}): _rule_violations()={got}, rules {'violated' if bad else 'hold'}", case, domain=dom)
+
+
 def run(ctx):
     ctx.level = "other"
     ctx.explanation = (
@@ -25,9 +76,18 @@ def run(ctx):
     from props import _c31_bounded as B
 
     B.bounded(ctx)
+    bounded_hierarchy(ctx)
 
 
 def replay(rec):
     from props import _c31_bounded as B
+
+    if "variant" in rec.get("case", {}):
+        from vf.core import Ctx
+
+        c = Ctx("C31")
+        bounded_hierarchy(c)
+        print(f"replay C31 hierarchy domain: {len(c.violations)} failing case(s)")
+        return 1 if c.violations else 0
 
     return B.replay(rec)
